@@ -66,6 +66,25 @@ Definition run_classes (n : nat) : list rclass := RGeneric :: RKbd :: map RSub (
 Definition all_classes (n : nat) (o : wobj) (P : wobj -> bool) : bool :=
   forallb (fun r => P (with_class r o)) (run_classes n).
 
+(** ** The entry prologue
+    The model enters a use with [mkdir] and the temp-name loop.  [make_tempfile] has statements before that ("already
+    open - close and delete the current file").  [entry_inert o p]: in EVERY attribute state in which the object holds
+    no open temp file (what [__init__] and every [__exit__] leave: obligations [init_unentered] and
+    [exit_always_leaves o 0 VNone]; a failed entry never binds the handle) the prologue [p] performs no file-system
+    operation and falls through.  A prologue keyed on a stale attribute (seeded c12_5: [self._temp_name], which nothing
+    resets, instead of [self.temp]) unlinks a name that may by now belong to another writer: [entry_inert] is false. *)
+Definition inert_k : xenv -> xst -> xtree := fun _ st => match st with StN => XDone false | _ => XDone true end.
+Definition entry_inert (o : wobj) (p : xstmt) : bool :=
+  forallb (fun a => negb (is_val VNone (env_of (o_attrs o) a false 0)) ||
+                    xtree_eqb (exec p None (env_of (o_attrs o) a false) inert_k) (XDone false))
+          (states (o_attrs o) (o_init o) (o_const o)).
+(** Today's prologue, and the one keyed on the temp name. *)
+Definition prologue_fixed : xstmt :=
+  SIf (TIsNot (EV 0) (EC VNone)) (SSeq (SCall MClose (EV 0) [] false) (SCall MUnlink (ENameOf (EV 0)) [] false)) SSkip.
+Definition prologue_stale_name : xstmt :=
+  SIf (TIsNot (EV 1) (EC VNone))
+      (SSeq (SIf (TIsNot (EV 0) (EC VNone)) (SCall MClose (EV 0) [] false) SSkip) (SCall MUnlink (EV 1) [] true)) SSkip.
+
 (** ** Retry chains and their collapse *)
 (** [S n] attempts: the rename is tried; when it is refused it is tried again, [n] more times; when the last attempt is
     refused too, [fl] (the exhaustion path) follows. *)
